@@ -48,7 +48,7 @@ def execute(word, layout="space", want_config=True, commands=None, raw=None, tex
 def selfcheck_render(case):
     """The strict reference lexer must split render(word) back into exactly the word's tokens."""
     raw = case.raw
-    if raw is None or any(k == "raw" for k, _ in raw):
+    if raw is None or any(k in ("raw", "glue") for k, _ in raw):
         return None
     if case.lerr is not None:
         return "reference lexer error %r on rendered word" % (case.lerr,)
